@@ -445,6 +445,52 @@ class Builder:
             op["src_wells"] = ("M", r, c, tom(srcs)); op["dst_wells"] = ("M", r, c, tom(dsts)); op["vols"] = ("M", r, c, tom(vols))
         return op
 
+    def ops_drain_refill(self):
+        """Empty a well completely (labware with min_volume 0), then refill it from elsewhere."""
+        rng = self.rng
+        cands = []
+        for li, L in enumerate(self.labs):
+            if F(L.min_volume) == 0:
+                for w in [str(x) for x in L.wells[0 if L.is_trough else slice(None)].flatten()]:
+                    v = self.vol(li, w)
+                    if 0 < v <= 40 * self.cfg["max_volume"] and (self.cfg["auto_split"] or v <= self.cfg["max_volume"]):
+                        cands.append((li, w, v))
+        if not cands or self.inexact:
+            return []
+        li, w, v = rng.choice(cands)
+        L = self.labs[li]
+        # a destination with enough room
+        dests = []
+        for di, D in enumerate(self.labs):
+            for d in [str(x) for x in D.wells.flatten()]:
+                if not (di == li and D.indices[d] == L.indices[w]) and F(D.max_volume) - self.vol(di, d) >= v:
+                    dests.append((di, d))
+        if not dests:
+            return []
+        di, d = rng.choice(dests)
+        ops = [{"op": "transfer", "src": li, "src_wells": ("S", w), "dst": di, "dst_wells": ("S", d), "vols": ("S", v),
+                "label": "drain", "wash": 1, "partition_by": "auto", "kw": {}}]
+        # refill from a third well with different content
+        srcs = []
+        for si, S in enumerate(self.labs):
+            for s_ in [str(x) for x in S.wells.flatten()]:
+                room = self.vol(si, s_) - F(S.min_volume)
+                if not (si == li and S.indices[s_] == L.indices[w]) and not (si == di and S.indices[s_] == self.labs[di].indices[d]) and room > 0:
+                    srcs.append((si, s_, room))
+        if srcs:
+            si, s_, room = rng.choice(srcs)
+            amount = min(room, F(L.max_volume), 40 * self.cfg["max_volume"])
+            if not self.cfg["auto_split"]:
+                amount = min(amount, self.cfg["max_volume"])
+            amount = grid(rng, F(1, 8), amount) if amount > F(1, 8) else amount
+            ops.append({"op": "transfer", "src": si, "src_wells": ("S", s_), "dst": li, "dst_wells": ("S", w), "vols": ("S", amount),
+                        "label": "refill", "wash": 1, "partition_by": "auto", "kw": {}})
+            if rng.random() < 0.6:
+                ops.append({"op": "transfer", "src": li, "src_wells": ("S", w), "dst": di, "dst_wells": ("S", d),
+                            "vols": ("S", grid(rng, 0, min(amount, F(self.labs[di].max_volume) - self.vol(di, d) - v)) if F(self.labs[di].max_volume) - self.vol(di, d) - v > 0 else F(0)),
+                            "label": "pass on", "wash": 1, "partition_by": "auto", "kw": {}})
+        return ops
+
     def op_distribute(self, fail=None):
         rng = self.rng
         troughs = [i for i, L in enumerate(self.labs) if L.is_trough]
@@ -544,9 +590,18 @@ def gen_worklist_program(rng: random.Random, profile: dict) -> dict:
     """A mostly valid worklist program; with probability p_fail the last operation is built to fail."""
     b = Builder(rng, profile)
     nops = rng.randint(*profile.get("nops", (1, 8)))
-    kinds = profile.get("kinds", ["transfer"] * 4 + ["aspirate", "dispense", "distribute", "distribute", "misc", "add", "remove"])
+    kinds = profile.get("kinds", ["transfer"] * 4 + ["aspirate", "dispense", "distribute", "distribute", "misc", "add", "remove", "drain_refill"])
     for _ in range(nops):
         k = rng.choice(kinds)
+        if k == "drain_refill":
+            ok = True
+            for op in b.ops_drain_refill():
+                if not b.push(op):
+                    ok = False
+                    break
+            if not ok:
+                return b.program()
+            continue
         op = {"transfer": b.op_transfer, "aspirate": b.op_aspirate, "dispense": b.op_dispense, "distribute": b.op_distribute,
               "misc": b.op_misc, "add": b.op_add, "remove": b.op_remove}[k]()
         if not b.push(op):
